@@ -13,11 +13,38 @@ fn main() {
 
 pub fn gen(rng: &mut Rng, idx: usize, n: usize, thorough: bool) -> String {
     let o = GenOpts { max_vars: if thorough { 8 } else { 6 }, max_ops: if thorough { 60 } else { 28 }, new_vars: true, small_tables: true };
+    if idx % 16 == 15 {
+        // few variables with large labels (word-size boundaries) in a builder over > 64 variables
+        return gen_sparse_prog(rng, if thorough { 30 } else { 18 });
+    }
     gen_prog(rng, idx, n, &o)
+}
+
+fn run_sparse(prog: &Prog, st: &mut Stats) -> Outcome {
+    let b = AnyBuilder::new(prog);
+    let pool = exec(&b, prog, st);
+    let mut fails = vec![];
+    match sparse_tables(prog, &pool) {
+        Err(e) => fails.push(e),
+        Ok((spec, got)) => {
+            for k in 0..pool.len() {
+                if spec[k] != got[k] {
+                    let a = (0..spec[k].len()).find(|a| spec[k][*a] != got[k][*a]).unwrap();
+                    fails.push(format!("pool entry {k} ({:?}) evaluates to {} where the used variables {:?} have the values {a:#b} (others false), the operation's definition gives {}", prog.ops[k], got[k][a], used_labels(prog), spec[k][a]));
+                }
+            }
+        }
+    }
+    st.bump("sparse_large_labels");
+    st.bump(if prog.lru.is_some() { "cache_lru" } else { "cache_all" });
+    Outcome { result: pool_line(&pool), fails, nontrivial: pool.iter().any(|p| !p.is_const()) }
 }
 
 pub fn run(case: &str, st: &mut Stats) -> Outcome {
     let prog = parse(case);
+    if prog.nvars > 16 {
+        return run_sparse(&prog, st);
+    }
     let b = AnyBuilder::new(&prog);
     let pool = exec(&b, &prog, st);
     let nv = prog.total_vars();
